@@ -1414,3 +1414,45 @@ def unsafe_reached_only_through_a_callable_object(module: str, other: str) -> bo
 
 def _caller_of_callable_objects(nodes: list[Node], root: Node) -> list[str]:
     return list(filter(_RawPrefixMatcher(root), nodes))
+
+
+def safe_index_in_try_not_found_replaced_by_length(module: Node) -> str:
+    try:
+        end = module.index(".")
+    except ValueError:
+        end = len(module)
+    return module[:end]
+
+
+def safe_find_result_copied_when_found(module: Node) -> str:
+    position = module.find(".")
+    end = position if position != -1 else len(module)
+    return module[:end]
+
+
+def safe_find_result_copied_under_guard(module: Node) -> str:
+    end = len(module)
+    position = module.find(".")
+    if position >= 0:
+        end = position
+    return module[:end]
+
+
+def unsafe_find_result_copied_unguarded(module: Node) -> str:
+    end = len(module)
+    position = module.find(".")
+    if position != 0:
+        end = position
+    return module[:end]
+
+
+def unsafe_find_conditional_expression_wrong_way_round(module: Node) -> str:
+    position = module.find(".")
+    end = position if position == -1 else len(module)
+    return module[:end]
+
+
+def safe_walrus_find_not_found_replaced(module: Node) -> str:
+    if (end := module.find(".")) < 0:
+        end = len(module)
+    return module[:end]
